@@ -450,18 +450,23 @@ structure SdistPlan where
   files : List SdistFile
   pkgInfoDigest : String
   pkgInfoSize : Nat
+  /-- the generated `setup.py` (`build_should_generate_setup()`): digest and size of `build_setup()`, else none -/
+  setupPy : Option (String × Nat) := none
 deriving Repr, Inhabited
 
 /-- `tarfile.TarInfo(name)` defaults as used by `add_file_to_tar` -/
 def freshTarInfo (name : String) (size : Nat) (digest : String) : TarMeta :=
   { name, mode := 0o644, uid := 0, gid := 0, uname := "", gname := "", mtime := 0, size, digest }
 
-/-- `SdistBuilder.build` (no setup.py generation: no build script) -/
+/-- `SdistBuilder.build`: selected files sorted by relative path, then the generated setup.py if asked for, then PKG-INFO -/
 def sdistEntries (sde : Option String) (p : SdistPlan) : List TarMeta :=
   let mt := archiveMtime sde
   (if Gen.sdistFilesSorted then sortBy (fun f => f.rel) p.files else p.files).map (fun f =>
       cleanTarinfo mt { name := p.tarDir ++ "/" ++ posix f.rel, mode := f.mode, uid := f.uid, gid := f.gid,
                         uname := f.uname, gname := f.gname, mtime := f.mtime, size := f.size, digest := f.digest })
+  ++ (match p.setupPy with
+      | some (d, n) => [cleanTarinfo mt (freshTarInfo (p.tarDir ++ "/setup.py") n d)]
+      | none => [])
   ++ [cleanTarinfo mt (freshTarInfo (p.tarDir ++ "/PKG-INFO") p.pkgInfoSize p.pkgInfoDigest)]
 
 /-- description of the sdist: gzip header mtime + cleaned tar headers in order -/
@@ -507,5 +512,67 @@ def sIMode (m : Nat) : Nat := m &&& 0o7777
 def selectSdist (sel : PathKey → Bool) (tree : List FileEntry) : List SdistFile :=
   (tree.filter fun f => sel f.rel).map fun f =>
     ⟨f.rel, sIMode f.stMode, f.uid, f.gid, f.uname, f.gname, f.mtime, f.size, f.digest⟩
+
+/-! ### `SdistBuilder.find_packages`: the `packages` / `package_data` lists of the generated setup.py -/
+
+/-- a non-directory entry of a walked directory -/
+structure WalkFile where
+  name : String
+  /-- `name.endswith(".py")` -/
+  isPy : Bool
+  /-- `is_excluded(path relative to the project)` -/
+  excluded : Bool
+deriving DecidableEq, Repr, Inhabited
+
+/-- one directory below the package, as `os.walk(base, topdown=True)` yields it (`__pycache__` and "." skipped):
+`rel` = parts of `os.path.relpath(path, base)`; `files` in listing order -/
+structure WalkDir where
+  rel : PathKey
+  files : List WalkFile
+deriving DecidableEq, Repr, Inhabited
+
+def strLe (a b : String) : Bool := (compare a b).isLE
+
+/-- `sorted(list of str)` -/
+def sortStr (xs : List String) : List String := xs.mergeSort strLe
+
+/-- `is_subpkg`: some `.py` file, and not all `.py` files excluded -/
+def WalkDir.isSubpkg (d : WalkDir) : Bool :=
+  d.files.any (·.isPy) && !((d.files.filter (·.isPy)).all (·.excluded))
+
+/-- `find_nearest_pkg`: the deepest proper ancestor that is a sub-package.  `subs` = sub-package directories; the code
+consults the ones *seen so far*, and a top-down walk has seen every ancestor of the current directory. -/
+def nearestPkg (pkgName : String) (subs : List PathKey) (rel : PathKey) : String × String :=
+  match ((List.range' 1 (rel.length - 1)).reverse).find? (fun i => subs.contains (rel.take i)) with
+  | some i => (joinWith "." (pkgName :: rel.take i), joinWith "/" (rel.drop i))
+  | none => (pkgName, joinWith "/" rel)
+
+/-- what one walked directory adds to `pkg_data` (list of (package, pattern)), in the order the code appends -/
+def dirEntries (pkgName : String) (subs : List PathKey) (d : WalkDir) : List (String × String) :=
+  if d.isSubpkg then []
+  else
+    let pn := nearestPkg pkgName subs d.rel
+    let data := d.files.filter (fun f => !f.excluded)
+    if data.isEmpty then []
+    else if data.length == d.files.length then [(pn.1, pn.2 ++ "/" ++ "*")]
+    else data.flatMap fun _ => data.map fun x => (pn.1, pn.2 ++ "/" ++ x.name)   -- the whole list once per file (as coded)
+
+def subPkgs (walk : List WalkDir) : List PathKey := (walk.filter (·.isSubpkg)).map (·.rel)
+
+/-- all `pkg_data[k].append(v)` in order; `pkg_data[""]` starts as `["*"]` -/
+def pkgDataPairs (pkgName : String) (walk : List WalkDir) : List (String × String) :=
+  ("", "*") :: walk.flatMap (dirEntries pkgName (subPkgs walk))
+
+/-- `sorted(packages)` -/
+def setupPackages (pkgName : String) (walk : List WalkDir) : List String :=
+  let ps := pkgName :: (subPkgs walk).map fun r => joinWith "." (pkgName :: r)
+  if Gen.sdistPackagesSorted then sortStr ps else ps
+
+/-- `{k: sorted(v) for k, v in pkg_data.items() if v}`, keys in sorted order (pprint sorts dict keys) -/
+def setupPackageData (pkgName : String) (walk : List WalkDir) : List (String × List String) :=
+  let pairs := pkgDataPairs pkgName walk
+  (sortStr (pairs.map (·.1))).eraseDups.map fun k =>
+    let vs := (pairs.filter (fun kv => kv.1 == k)).map (·.2)
+    (k, if Gen.sdistPackageDataSorted then sortStr vs else vs)
 
 end Poetry.Build
